@@ -255,8 +255,8 @@ func checkC10(p *Prog, l *Ledger) {
 			}
 		})
 	}
-	if n < 3 {
-		l.Violate("C10/S4-coercion-sites/vacuity", "ParseFloat sites", "", fmt.Sprintf("only %d text-to-number conversion sites found (lexer + two coercions expected)", n))
+	if n < 2 {
+		l.Violate("C10/S4-coercion-sites/vacuity", "ParseFloat sites", "", fmt.Sprintf("only %d text-to-number conversion sites found (the scanner's and at least one coercion expected)", n))
 	}
 }
 
